@@ -146,8 +146,9 @@ def AnnPred (root : Node) (cur : Nat) (t : Triple) : Prop :=
   TypePred t ∨ (t.1 = .b cur ∧ (t.2.1 = .tf "type" ∨ t.2.1 = .tf "subtypeOf")) ∨
     (t.1 = root ∧ t.2.1 = .tf "containsType")
 
-theorem annotateType_step (G : GLang) (c : GCfg) (g : GState) (root : Node) (cur : Nat) (ty : Term)
-    (mf : Bool) (g' : GState) (h : annotateType G c g root cur ty mf = .ok g') :
+/-- `annotateType` is a sequence of type steps, whatever decides `canonical` (the type itself or the caller) -/
+theorem annotateType_step_ov (G : GLang) (c : GCfg) (g : GState) (root : Node) (cur : Nat) (ty : Term)
+    (mf : Bool) (ov : Option Bool) (g' : GState) (h : annotateType G c g root cur ty mf ov = .ok g') :
     TStep (AnnPred root cur) (fun _ => True) g g' := by
   unfold annotateType at h
   split at h
@@ -159,7 +160,7 @@ theorem annotateType_step (G : GLang) (c : GCfg) (g : GState) (root : Node) (cur
     have s2 : TStep (AnnPred root cur) (fun _ => True) g1 (g1.add (.b cur, .tf "type", tn)) :=
       .add _ _ (.inr (.inl ⟨rfl, .inl rfl⟩))
     have s3 : ∀ ga : GState, TStep (AnnPred root cur) (fun _ => True) ga
-        (if (c.withSupertypes && inCanon G ty) = true then ga.add (.b cur, .tf "subtypeOf", tn) else ga) := by
+        (if (c.withSupertypes && ov.getD (inCanon G ty)) = true then ga.add (.b cur, .tf "subtypeOf", tn) else ga) := by
       intro ga; split
       · exact .add _ _ (.inr (.inl ⟨rfl, .inr rfl⟩))
       · exact .refl _
@@ -187,5 +188,10 @@ theorem annotateType_step (G : GLang) (c : GCfg) (g : GState) (root : Node) (cur
           · exact .iteAdd _ _ _ (.inr (.inl ⟨rfl, .inr rfl⟩))
       · simp only [Except.ok.injEq] at h; subst h
         exact .trans s1 s234
+
+theorem annotateType_step (G : GLang) (c : GCfg) (g : GState) (root : Node) (cur : Nat) (ty : Term)
+    (mf : Bool) (g' : GState) (h : annotateType G c g root cur ty mf = .ok g') :
+    TStep (AnnPred root cur) (fun _ => True) g g' :=
+  annotateType_step_ov G c g root cur ty mf none g' h
 
 end Tfv
